@@ -1,4 +1,5 @@
 import IxpeVerif.Lemmas.Livetime
+import IxpeVerif.Lemmas.ImpTie
 /-!
 # C05 — livetime and dead-time bookkeeping is exact (core Lean only; axioms ⊆ {propext})
 
@@ -139,4 +140,25 @@ GTIs [0,10], [20,30], events 5, 20, 25 → [5, 14, 5] where the specification gi
 theorem event_on_gti_start_fails :
     fillLivetime 0 [0, 20] [5, 20, 25] 1 = [5, 14, 5] ∧ ((20 - max (5 + 1) 20 : Int) = 0 ∧ (25 - max (20 + 1) 20 : Int) = 4) := by
   decide
+/-! ### T-tie: the array statements of `fill_livetime` regenerated from the source (`Gen/Imp.lean`) -/
+
+/-- the generated definition (append, searchsorted, mask, diff, fancy-index assignment, subtraction, floor — in the order of the source) is the
+LIVETIME column of the line-by-line model, for every input -/
+theorem gen_fill_livetime_eq_model (s0 : Int) (starts times : List Int) (dead : Int) :
+    Gen.Imp.fill_livetime s0 starts times dead = livetimeColumn s0 starts times dead := ImpTie.gen_fill_livetime_eq_model s0 starts times dead
+
+/-- **C05 on the current source**: the value the generated `fill_livetime` writes for event `j` is the time (floored to µs) since the later of the
+previous event plus one dead time and the start of the event's good time interval -/
+theorem gen_livetime_eq_spec (s0 dead : Int) (starts times : List Int) (j : Nat) (p t g : Int)
+    (hm : StrictInc (s0 :: times)) (hst : StrictInc starts) (hs : ∀ s ∈ starts, s0 ≤ s) (hd : 0 ≤ dead)
+    (hp : (s0 :: times)[j]? = some p) (ht : (s0 :: times)[j+1]? = some t)
+    (hg : g ∈ starts ∧ g < t ∧ ∀ s ∈ starts, s < t → s ≤ g)
+    (hgap : p ≤ g → p + dead ≤ g ∨ j = 0) :
+    (Gen.Imp.fill_livetime s0 starts times dead)[j]? = some (toMicro (if j = 0 then t - g else t - max (p + dead) g)) := by
+  rw [gen_fill_livetime_eq_model, livetimeColumn, fillLivetimeW_eq s0 dead starts times hs, List.getElem?_map,
+    livetime_eq_spec s0 dead starts times j p t g hm hst hs hd hp ht hg hgap]
+  rfl
+
+example : Gen.Imp.fill_livetime 0 [0, 2097152] [1048576, 3145728] 0 = [1000000, 1000000] := by decide
+
 end Livetime
